@@ -1364,6 +1364,169 @@ def check_no_stale_cache(ctx, repo, rule, construct, cls, fn, resolve_props=True
                           "everything by value" % ("/".join(cached), sorted(key_reads)), ctx.loc(mod, r))
 
 
+# ------------------------------------------------------- conformance of the modelled callees
+FHP = "sktime/forecasting/base/_fh.py"
+
+
+def fh_method_run(repo, name, args, int_index=True):
+    """Interpret ``ForecastingHorizon.<name>`` for a relative horizon ``fh``; conversions of the object itself are
+    the (C02-decided) primitives: to_relative(c) = fh, to_absolute(c) = c + fh."""
+    cls = repo.cls(FHP + ":ForecastingHorizon")
+    fn = cls.methods.get(name)
+    if fn is None:
+        raise AnalysisError("ForecastingHorizon.%s missing" % name)
+    selfv = SelfV(cls, {"_is_relative": K(True)})
+
+    def hooks(interp, frame, call, fname, a, kw, st):
+        simple = (fname or "").split(".")[-1]
+        if isinstance(call.func, ast.Attribute) and isinstance(call.func.value, ast.Name) and st.env.get(call.func.value.id) is selfv:
+            c = a[0] if a else kw.get("cutoff", K(None))
+            if simple == "to_relative":
+                return FHV(Vec("fh"), True)
+            if simple == "to_absolute":
+                lc = as_lin_val(c)
+                return FHV(Vec("fh", lc), False) if lc is not None else Opq("to_absolute(cutoff=%r)" % (c,))
+            if simple == "_new":
+                v = a[0] if a else kw.get("values")
+                rel = kw.get("is_relative", a[1] if len(a) > 1 else None)
+                v = v.vec if isinstance(v, FHV) else v
+                return FHV(v, rel == K(True)) if isinstance(v, Vec) else Opq("_new", [v])
+        if simple in ("_check_start", "_check_cutoff"):
+            return K(None)
+        if simple == "_get_freq":
+            return Opq("freq")
+        if simple == "_coerce_duration_to_int" and a:
+            return a[0]  # durations on the integer model are integers already
+        ext = interp.ext_name(fname, frame)
+        if ext == "builtins.isinstance" and len(a) == 2:
+            if isinstance(a[0], (Vec, FHV)):
+                return K(not int_index)  # is the index a Period / Datetime index?
+        return NotImplemented
+
+    it = AInterp(repo, scenario={}, hooks=hooks, no_inline=("_check_start", "_check_cutoff", "_get_freq", "_coerce_duration_to_int"))
+    argv = dict(args)
+    argv["self"] = selfv
+    traces, _ = it.run_function(Frame(cls.module, fn, cls, cls), argv, State())
+    return cls, fn, [o[1] for s_, o in traces if o[0] in ("return",)], [o for s_, o in traces if o[0] == "fall"]
+
+
+def check_fh_models(ctx, repo, rule, which=("to_indexer", "to_absolute_int")):
+    """The rules of C05 / C11 model ForecastingHorizon.to_indexer / to_absolute_int instead of following them; the
+    model is an obligation: decide it from the source of the methods (relative horizon, integer or period index)."""
+    S = Lin.sym("start")
+    cases = []
+    if "to_indexer" in which:
+        cases += [("to_indexer", "cutoff=None", {}, Vec("fh", -1), "steps - 1 (zero-based from the cutoff), also when no cutoff is passed"),
+                  ("to_indexer", "cutoff=given", {"cutoff": T}, Vec("fh", -1), "steps - 1 (zero-based from the cutoff)"),
+                  ("to_indexer", "from_cutoff=False", {"cutoff": T, "from_cutoff": K(False)}, Vec("fh", -FH0), "steps - first step")]
+    if "to_absolute_int" in which:
+        cases += [("to_absolute_int", "integer-index", {"start": S, "cutoff": T}, Vec("fh", T - S), "cutoff + steps - start (zero at `start`)"),
+                  ("to_absolute_int", "period-index", {"start": S, "cutoff": T}, Vec("fh", T - S), "cutoff + steps - start (zero at `start`)")]
+    for name, scen, args, want, text in cases:
+        c = "ForecastingHorizon.%s[%s]:model" % (name, scen)
+        try:
+            cls, fn, rets, falls = fh_method_run(repo, name, args, int_index=(scen != "period-index"))
+        except AnalysisError as e:
+            ctx.undecided(rule, c, str(e), None)
+            continue
+        loc = ctx.loc(cls.module, fn)
+        if not rets or falls:
+            ctx.undecided(rule, c, "no interpretable return", loc)
+            continue
+        bad = None
+        und = None
+        for r in rets:
+            v = r.vec if isinstance(r, FHV) else r
+            if isinstance(v, Vec) and v.base == "fh" and not v.neg:
+                if v.off != want.off:
+                    bad = v
+            else:
+                und = r
+        if bad is not None:
+            d = bad.off - want.off
+            wit = {"fh": [2, 4], "returned_offset": repr(bad.off), "expected_offset": repr(want.off)}
+            if "start" in d.symbols():
+                wit["start"] = 7
+            ctx.violation(rule, c, "for a relative horizon %s returns steps %+r, the rules of this property rely on %s; witness %s"
+                          % (name, bad.off, text, witness_text(wit)), loc, witness=wit)
+        elif und is not None:
+            ctx.undecided(rule, c, "%s returns %r on a path" % (name, und), loc)
+        else:
+            ctx.ok(rule, c, "%s returns %s" % (name, text), loc)
+
+
+def check_shift_model(ctx, repo, rule):
+    """``_shift(x, by)`` is modelled as ``x + by``: every return of the helper must be that sum (by may be rescaled by x.freq)."""
+    mod = repo.module("sktime/utils/datetime.py")
+    fn = repo.func("sktime/utils/datetime.py", "_shift")
+    loc = ctx.loc(mod, fn)
+    ps = astq.param_names(fn)
+    c = "_shift:model"
+    if len(ps) != 2:
+        ctx.undecided(rule, c, "unexpected signature", loc)
+        return
+    x, by = ps
+    want = astq.canon(ast.parse("%s + %s" % (x, by), mode="eval").body)
+    other = [r for r in astq.returns(fn) if r.value is None or astq.canon(astq.inline_locals(fn, r.value)) != want]
+    rebinds_x = astq.assigned_in(fn, x)
+    by_ok = all(isinstance(n, ast.AugAssign) and isinstance(n.op, ast.Mult) and astq.canon(n.value) == "%s.freq" % x
+                for n in ast.walk(fn) if isinstance(n, (ast.Assign, ast.AugAssign)) and by in
+                [dotted(t) for t in (n.targets if isinstance(n, ast.Assign) else [n.target])])
+    if not other and not rebinds_x and by_ok:
+        ctx.ok(rule, c, "every path returns x + by (by rescaled by x.freq for timestamps)", loc)
+    else:
+        ctx.undecided(rule, c, "a path of _shift does not return `x + by` (%s): whether it equals label arithmetic on every index type "
+                      "(e.g. periods with a multiplied frequency) depends on pandas and is not decided here"
+                      % (ast.unparse(other[0].value)[:80] if other and other[0].value is not None else "rebinding"),
+                      ctx.loc(mod, other[0]) if other else loc)
+
+
+def check_set_fh_stores(ctx, repo, rule, cls_name="_OptionalForecastingHorizonMixin"):
+    """(H1) a horizon passed to predict/fit must replace the stored one on every accepting path."""
+    cls = repo.cls(SKT + ":" + cls_name)
+    fn = cls.methods.get("_set_fh")
+    if fn is None:
+        raise AnalysisError("%s._set_fh missing" % cls_name)
+    loc = ctx.loc(cls.module, fn)
+    c = "%s._set_fh:stores-new-horizon" % cls_name
+    old, new = FHV(Vec("fh_old"), True), FHV(Vec("fh"), True)
+    guards = []
+
+    def hooks(interp, frame, call, fname, a, kw, st):
+        simple = (fname or "").split(".")[-1]
+        if simple == "check_fh":
+            return a[0] if a else kw.get("fh")
+        ext = interp.ext_name(fname, frame)
+        if ext and (old in a or new in a):
+            guards.append(ext)
+            return Opq("compare:" + ext, a)
+        return NotImplemented
+
+    it = AInterp(repo, scenario={}, hooks=hooks, no_inline=("check_fh",))
+    selfv = SelfV(cls, {"_fh": old, "_is_fitted": K(True)})
+    it.self_attrs["is_fitted"] = K(True)
+    traces, _ = it.run_function(Frame(cls.module, fn, cls, cls), {"self": selfv, "fh": new}, State())
+    kept = []
+    n_ok = 0
+    for s_, o in traces:
+        if o[0] == "raise":
+            continue
+        cur = s_.heap.get((id(selfv), "_fh"), old) if hasattr(s_, "heap") else selfv.attrs.get("_fh")
+        if cur is new or cur == new:
+            n_ok += 1
+        else:
+            kept.append(cur)
+    if not kept and n_ok:
+        ctx.ok(rule, c, "a horizon that is passed replaces the stored one on every accepting path", loc)
+    elif kept and any(g in ("numpy.array_equal", "numpy.array_equiv", "numpy.allclose") for g in guards):
+        ctx.violation(rule, c, "the stored horizon is kept when %s(new, old) holds: that compares the values only, so an absolute horizon "
+                      "with the numbers of the stored relative one (or vice versa) is ignored and predict uses the stale horizon"
+                      % guards[0], loc, witness={"history": "predict(fh=[12, 13]); predict(fh=ForecastingHorizon([12, 13], is_relative=False))",
+                                                 "stored_after_second_call": "relative [12, 13]"})
+    else:
+        ctx.undecided(rule, c, "on some accepting path the stored horizon is not replaced by the one passed (%r)" % (kept[:1],), loc)
+
+
 # ------------------------------------------------------------------------------- R5
 def rule_dispatch(ctx, repo):
     mod = repo.module(RED)
@@ -1594,6 +1757,9 @@ def run(ctx):
     ctx.assume("ForecastingHorizon: to_relative/to_indexer(relative) == steps - 1, values sorted and distinct (C02)")
     ctx.assume("sklearn.base.clone returns an unfitted copy; what the wrapped regressor does with its input is not decided")
     classes = rule_dispatch(ctx, repo)
+    check_fh_models(ctx, repo, "R1", which=("to_indexer",))
+    check_shift_model(ctx, repo, "R3")
+    check_set_fh_stores(ctx, repo, "R4")
     rule_r1(ctx, repo)
     rule_last_window(ctx, repo)
     rule_reducers(ctx, repo, classes)
